@@ -23,7 +23,7 @@ func freshRelayer(tag string, maxChains int) (string, []string, []string) {
 	p.Address = rt.Str(tag + ".address")
 	n := rt.IntRange(tag+".nchains", 1, maxChains)
 	for i := 0; i < n; i++ {
-		p.Chains = append(p.Chains, rt.Str(tag+".chain"))
+		p.Chains = append(p.Chains, rt.StrN(tag+".chain", 3)) // structured: byte-exact comparison, letter case included
 		p.Addresses = append(p.Addresses, rt.Str(tag+".addr"))
 	}
 	return p.Address, p.Chains, p.Addresses
@@ -41,7 +41,7 @@ func VerifC06Registry() {
 		a, cs, as := freshRelayer("pre", 2)
 		k.RegisterRelayers(ctx, a, cs, as)
 	}
-	c, s := rt.Str("queryChain"), rt.Str("querySigner")
+	c, s := rt.StrN("queryChain", 3), rt.Str("querySigner")
 	before := k.AuthRelayer(ctx, c, s)
 	_, beforeFound := k.GetRelayerAddressOnOtherChain(ctx, c, s)
 	rt.Assert("G6-auth-iff-address-known", before == beforeFound)
